@@ -73,8 +73,10 @@ def gen(seed, tier):
             o["U"] = 1
         if r.random() < 0.3:
             o["R"] = 1
-        segs = [seg(0, [g.f_df11(icao, ca=5)]), seg(0, [g.f_df17(icao, g.me_velocity(1))]),
-                seg(0, [g.f_long(20, icao, None, bds17([9, 16, 24]))])]
+        # every capability value that opens the gate (4..7: 7 is sent while an alert / SPI / downlink request is pending)
+        segs = [seg(0, [g.f_df11(icao, ca=r.choice([4, 5, 6, 7, 7]))]), seg(0, [g.f_df17(icao, g.me_velocity(1))]),
+                seg(0, [g.f_long(20, icao, None, bds17([9, 16, 24]))]),
+                seg(0, [g.f_long(r.choice([20, 21]), icao, None, bds20([r.randint(1, 26) for _ in range(8)]))])]
         for _ in range(r.randint(2, 6)):
             k = r.random()
             if k < 0.2:
@@ -123,6 +125,7 @@ def oracle(parts, outcome, obs):
     prev_t = None
     prev_existing = False
     fails = []
+    cap_s, cap_l = {}, {}       # per aircraft: CA of the latest DF11 (+ DF17 on an existing row under -U) / of the latest DF11 or DF17
     for k, (t, lines) in enumerate(segs):
         if k >= len(osegs):
             return fails + ["missing observation"]
@@ -167,6 +170,8 @@ def oracle(parts, outcome, obs):
                         kind, val = pyspec.ac13_altitude(code)
                         if kind == "ft" and got.get("alt") != str(val):
                             fails.append("segment %d: DF%d altitude code %d shows %s, latest carrier says %d" % (k, df, code, got.get("alt"), val))
+                        if kind == "none" and got.get("alt") not in ("-", prev.get(icao, {}).get("alt", "-")):
+                            fails.append("segment %d: DF%d altitude code %d carries no altitude (below 0 ft), the row shows %s (neither blank nor the previous value)" % (k, df, code, got.get("alt")))
                 if df == 17 and 9 <= tc <= 18:
                     code = getbits(v, nb, 41, 52)
                     if code & 0x10:
@@ -175,10 +180,11 @@ def oracle(parts, outcome, obs):
                             fails.append("segment %d: DF17 TC%d altitude code %d shows %s, latest carrier says %d" % (k, tc, code, got.get("alt"), val))
                 if df == 17 and 5 <= tc <= 8 and got.get("alt") != "-":
                     fails.append("segment %d: surface position squitter (TC%d) leaves altitude %s, the property says it blanks it" % (k, tc, got.get("alt")))
-                if df in (20, 21) and existing and opts.get("R") == "1" and getbits(v, nb, 33, 40) == 0x20:
+                gate_by_cap = cap_s.get(icao, 0) >= 4 and cap_l.get(icao, 0) >= 4
+                if df in (20, 21) and existing and (opts.get("R") == "1" or gate_by_cap) and getbits(v, nb, 33, 40) == 0x20:
                     cs = '"%s"' % "".join(ia5(getbits(v, nb, 41 + 6 * i, 46 + 6 * i)) for i in range(8))
                     if got.get("ais") != cs:
-                        fails.append("segment %d: BDS 2,0 reply under -R shows callsign %s, latest carrier says %s" % (k, got.get("ais"), cs))
+                        fails.append("segment %d: BDS 2,0 reply with the Comm-B gate open shows callsign %s, latest carrier says %s" % (k, got.get("ais"), cs))
                 if df in (5, 21) and (existing or df == 5):
                     want = "%d" % pyspec.id13_squawk(getbits(v, nb, 20, 32))
                     if got.get("sq") != want:
@@ -193,6 +199,11 @@ def oracle(parts, outcome, obs):
                     ch = [f for f in rows[a] if f not in ("ts", "ct0", "ct1", "pt", "tt", "ht", "b5t") and rows[a][f] != prev[a].get(f)]
                     if ch:
                         fails.append("segment %d: a frame of %06X changed %s of %06X" % (k, icao, ch, a))
+        if fr and fr != "zero":
+            if fr[0] == 11 or (fr[0] == 17 and use_u and fr[1] in prev):
+                cap_s[fr[1]] = getbits(fr[2], fr[3], 6, 8)
+            if fr[0] in (11, 17):
+                cap_l[fr[1]] = getbits(fr[2], fr[3], 6, 8)
         prev_existing = bool(fr and fr != "zero" and fr[1] in prev)
         prev_frame = lines[0] if lines else None
         prev_t = t
